@@ -285,8 +285,8 @@ class Oracle:
                 guard += 1
                 if guard > 50:
                     return ("cycle",)
-                if cur.kind == "param":
-                    return ("crash-param",)
+                if cur.kind == "param":                  # a parameter (named directly or through an alias) has no members
+                    return ("err", "KNoncomposite", prev_name)
                 if cur.kind in ("import", "type", "ptype", "value"):
                     return ("crash-other",)
                 fd = cur.obj
